@@ -23,7 +23,11 @@ type c03Params struct {
 	Active                    bool // active health checks: probe rounds with faulted probes are events too
 }
 
-var c03Events = []string{"req-ok", "req-500", "req-refused", "req-abort", "clock+1.1s", "clock+11s", "req-garbage", "req-eof", "req-timeout", "req-103-then-500"}
+// slow-*: the fault takes time (the virtual clock moves while the request is in flight): a
+// backend that answers after 11 s, one that hangs for 61 s before the transport gives up, one
+// whose answer takes over an hour
+var c03Events = []string{"req-ok", "req-500", "req-refused", "req-abort", "clock+1.1s", "clock+11s", "req-garbage", "req-eof", "req-timeout", "req-103-then-500",
+	"slow-11s-ok", "slow-61s-timeout", "slow-3601s-500", "slow-11s-abort"}
 
 // with active checks: one probe round in which every backend answers the probe that way
 var c03ProbeEvents = []string{"probes-ok", "probes-500", "probes-refuse", "probes-garbage", "probes-eof", "probes-timeout"}
@@ -58,7 +62,7 @@ func (in *c03Inst) Step(ev int) *vh.HViol {
 		for _, st := range in.k.stubs {
 			st.probeMode = mode
 		}
-		if tk := in.s.TickerByPeriod(5 * time.Second); tk != nil {
+		if tk := in.s.TickerByPeriod(kitProbePeriod); tk != nil {
 			tk.Fire()
 		}
 		in.s.Settle()
@@ -68,7 +72,7 @@ func (in *c03Inst) Step(ev int) *vh.HViol {
 		in.out = "probed"
 		return nil
 	}
-	mode := []string{"ok", "500", "refuse", "abort", "", "", "garbage", "eof", "timeout", "103+500"}[ev]
+	mode := []string{"ok", "500", "refuse", "abort", "", "", "garbage", "eof", "timeout", "103+500", "slow11+ok", "slow61+timeout", "slow3601+500", "slow11+abort"}[ev]
 	res := in.k.requestMode("10.0.0.1", mode)
 	in.out = fmt.Sprintf("%d/%v", res.Status, res.Aborted)
 	if res.Status == 0 && !res.Aborted {
@@ -84,7 +88,7 @@ func (in *c03Inst) Probe() *vh.HViol {
 	cfg := fmt.Sprintf("%s breaker=%v limiter=%v passive=%v active=%v", in.p.Strategy, in.p.Breaker, in.p.Limiter, in.p.Passive, in.p.Active)
 	if in.p.Active {
 		// a healthy probe round, as the running loop would deliver
-		if tk := in.s.TickerByPeriod(5 * time.Second); tk != nil {
+		if tk := in.s.TickerByPeriod(kitProbePeriod); tk != nil {
 			tk.Fire()
 		}
 		in.s.Settle()
@@ -207,7 +211,7 @@ func c03cScenario(p c03cParams, bound int) vh.SScenario {
 			ths = append(ths, s.Spawn(fmt.Sprintf("req-%s", m), func() { k.requestMode(fmt.Sprintf("10.0.0.%d", i+1), m) }))
 		}
 		ths = append(ths, s.Spawn("ticker", func() {
-			if tk := s.TickerByPeriod(5 * time.Second); tk != nil {
+			if tk := s.TickerByPeriod(kitProbePeriod); tk != nil {
 				tk.Fire()
 			}
 		}))
